@@ -475,11 +475,20 @@ def validate_source_uri(source_uri: str, base_path: Path) -> Path:
     # resolve() follows symlinks and returns absolute path
     try:
         resolved = candidate.resolve()
+        # resolve() is non-strict: at a symlink loop it stops resolving and keeps the
+        # remaining components lexically, so "loop/../link/x" comes back with "link"
+        # still unresolved. A completely resolved path is a fixed point of resolve().
+        fully_resolved = resolved.resolve() == resolved
     except (OSError, ValueError) as e:
         raise SourceUriSecurityError(
             source_uri,
             f"failed to resolve path: {e}",
         ) from e
+    if not fully_resolved:
+        raise SourceUriSecurityError(
+            source_uri,
+            "path could not be fully resolved (symlink loop)",
+        )
 
     # Check 3: Verify resolved path is within base directory
     # THIS IS THE CRITICAL SECURITY CHECK - catches:
@@ -1239,6 +1248,9 @@ def _check_single_snapshot(
     try:
         candidate = base_path / source_uri
         source_path = candidate.resolve()  # Follows symlinks
+        # resolve() is non-strict and stops at a symlink loop, leaving later components
+        # unresolved (see validate_source_uri); only a fixed point is completely resolved
+        fully_resolved = source_path.resolve() == source_path
     except (OSError, ValueError) as e:
         return StalenessResult(
             namespace=namespace,
@@ -1246,6 +1258,14 @@ def _check_single_snapshot(
             expected_hash=expected_hash,
             actual_hash=None,
             error=f"Security violation: failed to resolve path: {e}",
+        )
+    if not fully_resolved:
+        return StalenessResult(
+            namespace=namespace,
+            status="ERROR",
+            expected_hash=expected_hash,
+            actual_hash=None,
+            error=f"Security violation: path could not be fully resolved for {namespace}",
         )
 
     # Issue #48 CE Security Fix: Post-resolution containment check
